@@ -193,6 +193,8 @@ type World struct {
 	TruncateAt uint64
 	// Quiet suppresses the snapshot after every operation (long ledgers are observed at milestones).
 	Quiet bool
+	// OldEvery: every n-th transaction of this world is dated 8-400 days in the past (0 = none)
+	OldEvery int
 	// LastTruncateErr: result of the most recent TruncateChecked
 	LastTruncateErr error
 }
@@ -444,7 +446,12 @@ func (w *World) Now() time.Time {
 // NewTrx builds a fresh signed transfer (unique subject).
 func (w *World) NewTrx(from *Actor, to string, amount spice.Melange, data []byte) transaction.Transaction {
 	w.subjectN++
-	return ForgeTrx(from, to, fmt.Sprintf("t%d", w.subjectN), data, amount, w.Now())
+	at := w.Now()
+	if w.OldEvery > 0 && w.subjectN%w.OldEvery == 0 {
+		// issued long ago (8 days to more than a year): the ledger puts no age limit on what it seals
+		at = at.Add(-time.Duration(8+(w.subjectN*37)%400) * 24 * time.Hour)
+	}
+	return ForgeTrx(from, to, fmt.Sprintf("t%d", w.subjectN), data, amount, at)
 }
 
 // OpInfo tells the oracles what the harness just did on a node.
